@@ -23,7 +23,7 @@ def _chain(*preds):
 
 
 def p_filter_emptied_batch(i):
-    pre = i.spec.pre
+    pre = getattr(i.spec, "pre", None)
     if pre is None:
         return False
     import pandas as pd
@@ -145,6 +145,133 @@ under("(x*y).sum", lambda d: d, lambda e: (e.x * e.y).sum(), "Series.sum")
 under("(x>1).sum", lambda d: d, lambda e: (e.x > 1).sum(), "Series.sum")
 under("assign(z=x*y).groupby(col).z.sum", lambda d: d, lambda e: e.assign(z=e.x * e.y).groupby("k").z.sum(), "groupby(col).sum")
 UNDER = [k for k in SPECS if k not in PERBATCH and k not in GROUP and k not in REDUCE_V and k not in REDUCE_K]
+
+# --- second catalogue: the rest of the operator table, item assignment, frames assembled from expressions,
+#     aggregations chained onto another stateful result, two pipelines alive at once -----------------------------
+
+
+def _setitem(d):
+    import pandas as pd
+    d = d[["k", "x", "y"]]
+    if isinstance(d, pd.DataFrame):
+        d = d.copy()
+    d["z"] = d.x + 1
+    return d
+
+
+def _setitem_scalar(d):
+    import pandas as pd
+    d = d[["k", "x"]]
+    if isinstance(d, pd.DataFrame):
+        d = d.copy()
+    d["z"] = 5
+    return d
+
+
+EXPRS2 = {
+    "x<=1": lambda d: d.x <= 1,
+    "x>=2": lambda d: d.x >= 2,
+    "x<2": lambda d: d.x < 2,
+    "x!=1": lambda d: d.x != 1,
+    "x==y": lambda d: d.x == d.y,
+    "x-1": lambda d: d.x - 1,
+    "x-y": lambda d: d.x - d.y,
+    "x/2": lambda d: d.x / 2,
+    "x/y": lambda d: d.x / d.y,
+    "x%2": lambda d: d.x % 2,
+    "x//2": lambda d: d.x // 2,
+    "x**2": lambda d: d.x ** 2,
+    "7%x": lambda d: 7 % d.x,
+    "7//x": lambda d: 7 // d.x,
+    "3*x": lambda d: 3 * d.x,
+    "-x": lambda d: -d.x,
+    "abs(x-2)": lambda d: abs(d.x - 2),
+    "(x>1)&(y>1)": lambda d: (d.x > 1) & (d.y > 1),
+    "(x>1)|(y>1)": lambda d: (d.x > 1) | (d.y > 1),
+    "(x>1)^(y>1)": lambda d: (d.x > 1) ^ (d.y > 1),
+    "~(x>1)": lambda d: ~(d.x > 1),
+    "[(x>1)&(k==a)]": lambda d: d[(d.x > 1) & (d.k == "a")],
+    "setitem(z=x+1)": _setitem,
+    "setitem(z=5)": _setitem_scalar,
+    "frame{b:x+1,a:y}": lambda d: type(d)({"b": d.x + 1, "a": d.y}),
+    "x.astype(str)": lambda d: d.k.astype(str),
+    "x.round": lambda d: (d.x / 3).round(1),
+    "x.map": lambda d: d.x.map(lambda v: v * 2),
+    "reset_index.x": lambda d: d.reset_index().x + 1,
+    "x.to_frame": lambda d: d.x.to_frame(),
+    "k+k": lambda d: d.k + d.k,
+    "tail(1)": lambda d: d.tail(1),
+}
+for name, f in EXPRS2.items():
+    add("batch:" + name, "elementwise", f, mode="perbatch", cols=XY)
+PERBATCH2 = ["batch:" + k for k in EXPRS2]
+
+# aggregations over expressions / chained onto a stateful result (prefix oracles)
+add("(x<=1).sum", "Series.sum", lambda d: (d.x <= 1).sum())
+add("(7%x).sum", "Series.sum", lambda d: (7 % d.x).sum())
+add("(-x).mean", "Series.mean", lambda d: (-d.x).mean())
+add("setitem(z=x+1).z.sum", "Series.sum", lambda d: _setitem(d).z.sum(), cols=XY)
+add("frame{b:x+1,a:y}.b.sum", "Series.sum", lambda d: type(d)({"b": d.x + 1, "a": d.y}).b.sum(), cols=XY)
+add("frame{b:x+1,a:y}.sum", "DataFrame.sum", lambda d: type(d)({"b": d.x + 1, "a": d.y}).sum(), cols=XY)
+add("cumsum.sum", "Series.sum", lambda d: d.x.cumsum().sum())
+add("cumsum.mean", "Series.mean", lambda d: d.x.cumsum().mean())
+add("cummax.count", "Series.count", lambda d: d.x.cummax().count())
+add("rolling(2).sum.sum", "Series.sum", lambda d: d.x.rolling(2).sum().sum())
+add("cumsum.groupby(series).sum", "groupby(series).sum", lambda d: d.x.cumsum().groupby(d.k).sum())
+add("std(ddof=0)", "Series.std", lambda d: d.x.expanding().std(ddof=0), lambda d: d.x.std(ddof=0))
+add("groupby(col).std[ddof=0]", "groupby(col).std", lambda d: d.groupby("k").x.std(ddof=0))
+add("groupby(col).var[ddof=0]", "groupby(col).var", lambda d: d.groupby("k").x.var(ddof=0))
+add("groupby(col).var[ddof=2]", "groupby(col).var", lambda d: d.groupby("k").x.var(ddof=2))
+add("groupby(series).std[ddof=0]", "groupby(series).std", lambda d: d.groupby(d.k).x.std(ddof=0))
+
+
+def _two(first, second):
+    """two pipelines alive on the same source, the checked one built first (settings kept on the class leak here)"""
+    def f(d):
+        a = first(d)
+        b = second(d)
+        if hasattr(b, "stream"):
+            f.keep = b.stream.sink_to_list()      # the second pipeline really runs
+        return a
+    return f
+
+
+add("two:groupby.var(ddof=1)|var(ddof=0)", "groupby(col).var",
+    _two(lambda d: d.groupby("k").x.var(ddof=1), lambda d: d.groupby("k").x.var(ddof=0)))
+add("two:groupby.var(ddof=0)|var(ddof=1)", "groupby(col).var",
+    _two(lambda d: d.groupby("k").x.var(ddof=0), lambda d: d.groupby("k").x.var(ddof=1)))
+add("two:groupby.sum|mean", "groupby(col).sum", _two(lambda d: d.groupby("k").x.sum(), lambda d: d.groupby("k").x.mean()))
+add("two:sum|mean", "Series.sum", _two(lambda d: d.x.sum(), lambda d: d.x.mean()))
+add("two:expanding.var(ddof=1)|var(ddof=0)", "Series.var",
+    _two(lambda d: d.x.expanding().var(ddof=1), lambda d: d.x.expanding().var(ddof=0)), lambda d: d.x.var(ddof=1))
+add("two:value_counts|sum", "Series.value_counts", _two(lambda d: d.x.value_counts(), lambda d: d.x.sum()), rank=0)
+
+
+# an expression mixing the current batch with a running aggregate stays a streaming series:
+# per batch x_j + S_j (S_j = the running sum including batch j), and its own .sum() runs over all batches
+def _mixed_sum(pre, bounds):
+    import numpy as np
+    x = pre.x
+    tot = 0.0
+    for lo, hi in bounds:
+        if hi == lo:
+            continue
+        S = x.iloc[:hi].sum()
+        tot += (x.iloc[lo:hi] + S).sum()
+    return np.float64(tot)
+
+
+def _mixed_batch(pre, bounds):
+    lo, hi = bounds[-1]
+    return pre.x.iloc[lo:hi] + pre.x.iloc[:hi].sum()
+
+
+SPECS["split:(x+x.sum()).sum"] = F.Spec("split:(x+x.sum()).sum", "Series.sum", "split", lambda d: (d.x + d.x.sum()).sum(), _mixed_sum, classify=CLS)
+SPECS["split:x+x.sum()"] = F.Spec("split:x+x.sum()", "elementwise", "split", lambda d: d.x + d.x.sum(), _mixed_batch, classify=CLS)
+SECOND = [k for k in SPECS if k not in PERBATCH and k not in GROUP and k not in REDUCE_V and k not in REDUCE_K and k not in UNDER
+          and k not in PERBATCH2]
+ZERO = ["Series.mean", "DataFrame.mean", "Series.sum", "groupby(col).mean", "groupby(series).mean", "groupby(col).mean[frame]",
+        "Series.var", "(-x).mean", "cumsum.mean"]
 UNDER_Q = [k for k in UNDER if not (k.startswith(("[y>1]", "[k==a]")) and ("mean" in k or "count" in k))]
 
 
@@ -158,7 +285,12 @@ def plan(ctx):
                 F.Suite(GROUP, "kv3", {4: 1}),
                 F.Suite(PERBATCH, "kv", {1: 2, 2: 2, 3: 1}),
                 F.Suite(UNDER, "kv", {1: 2, 2: 2, 3: 2}),
-                F.Suite(UNDER, "kv3", {4: 1})]
+                F.Suite(UNDER, "kv3", {4: 1}),
+                F.Suite(PERBATCH2, "kv", {1: 2, 2: 2, 3: 0}),
+                F.Suite(SECOND, "kv", {1: 2, 2: 2, 3: 1}),
+                F.Suite(SECOND, "kv3", {4: 1}),
+                F.Suite(SECOND, "inc", {3: 2, 4: 1}),
+                F.Suite(ZERO, "vz", {1: 2, 2: 2, 3: 2, 4: 1})]
     return [F.Suite(REDUCE_V, "v", {1: 1, 2: 1, 3: 1}),
             F.Suite(REDUCE_SERIES, "v", {4: 0}),
             F.Suite(REDUCE_K, "k", {1: 1, 2: 1, 3: 1, 4: 1}),
@@ -169,7 +301,12 @@ def plan(ctx):
             F.Suite(PERBATCH, "kv", {1: 1, 2: 1}),
             F.Suite(PERBATCH, "kv3", {3: 0}),
             F.Suite(UNDER_Q, "kv", {1: 1, 2: 1}),
-            F.Suite(UNDER_Q, "kv3", {3: 0})]
+            F.Suite(UNDER_Q, "kv3", {3: 0}),
+            F.Suite(PERBATCH2, "kv", {1: 1, 2: 0}),
+            F.Suite(PERBATCH2, "kv3", {3: 0}),
+            F.Suite(SECOND, "kv3", {1: 1, 2: 1, 3: 1}),
+            F.Suite(SECOND, "inc", {3: 0}),
+            F.Suite(ZERO, "vz", {1: 1, 2: 1, 3: 1})]
 
 
 RULE = ("every table of R rows over (k, x) with k in {a,b}, x in {1,2,NaN} (family v: k fixed; k: x fixed; kv: all six rows; "
